@@ -41,4 +41,35 @@ def placedLL (inLoop inDef : Bool) : List (List Structure) → Bool
   | l :: r => placedL inLoop inDef l && placedLL inLoop inDef r
 end
 
+/-! C18: the lexer's guarantee on variable tokens, as a predicate on trees (hypothesis of `names_from_vocabulary`) -/
+
+/-- the lexer's guarantee on variable tokens (`lex_variable_letters`), as a predicate on trees -/
+def vtokOK (t : Token) : Bool :=
+  match t.kind with
+  | .vget | .vset => t.value.all isLetter
+  | _ => true
+
+mutual
+def vtokS : Structure → Bool
+  | .generic t => vtokOK t
+  | .brk _ | .recurse _ | .fnCall _ => true
+  | .ifS bs => vtokLL bs
+  | .forS _ body => vtokL body
+  | .whileS Option.none body => vtokL body
+  | .whileS (some c) body => vtokL c && vtokL body
+  | .fnDef _ _ body => vtokL body
+  | .lam _ body => vtokL body
+  | .lamOp _ body => vtokL body
+  | .listS items => vtokLL items
+  | .mon _ a => vtokS a
+  | .dy _ a b => vtokS a && vtokS b
+  | .tri _ a b c => vtokS a && vtokS b && vtokS c
+def vtokL : List Structure → Bool
+  | [] => true
+  | s :: r => vtokS s && vtokL r
+def vtokLL : List (List Structure) → Bool
+  | [] => true
+  | l :: r => vtokL l && vtokLL r
+end
+
 end Vy
